@@ -361,6 +361,12 @@ def main(chk, args):
         '(remaining budget < 1 s -> whole timeout), an explicit timeout= keeps the retry deadline of the retry object',
         'a service-level name (no method) names no method; maxAttempts is not compared',
     ]
+    parts = {}
+    for k, _, _ in chk.violations:
+        part = 'trace' if k.startswith('trace:') else 'spec->code'
+        layer = 'generation' if 'resolve:' in k[:14] else 'call'
+        parts[f'{part}/{layer}'] = parts.get(f'{part}/{layer}', 0) + 1
+    chk.extra['violations_by_part'] = parts
     chk.extra['configs_resolved'] = len(enum_cases) + len(cids)
     chk.extra['table_configs'] = cids
     chk.extra['calls'] = len(runs)
